@@ -231,36 +231,50 @@ pub fn cycle_simple(po: &PathObs, r: usize) -> Result<(), Bad> {
 // All depth-first orders (exact decision procedure for C10)
 // ---------------------------------------------------------------------------
 
+/// (discovery sequences, finishing sequences, enumeration complete?)
+pub type OrderSets = (BTreeSet<Vec<K>>, BTreeSet<Vec<K>>, bool);
+
 #[derive(Default)]
 pub struct DfsOrders {
-    cache: HashMap<(Vec<u16>, usize), (BTreeSet<Vec<K>>, BTreeSet<Vec<K>>)>,
+    cache: HashMap<(Vec<u64>, usize), OrderSets>,
 }
+
+/// Upper bound on the number of steps of one enumeration; beyond it the sets
+/// are incomplete (flag false) and callers must fall back to necessary conditions.
+const DFS_ENUM_CAP: u64 = 400_000;
 
 impl DfsOrders {
     /// (set of discovery sequences, set of finishing sequences) of all
-    /// depth-first traversals of `adj` from r.
-    pub fn get(&mut self, adj: &Adj, r: usize) -> &(BTreeSet<Vec<K>>, BTreeSet<Vec<K>>) {
+    /// depth-first traversals of `adj` from r (up to 64 nodes).
+    pub fn get(&mut self, adj: &Adj, r: usize) -> &OrderSets {
         let n = adj.len();
-        let masks: Vec<u16> = (0..n)
-            .map(|x| adj[x].iter().fold(0u16, |m, a| m | (1 << a.1)))
+        let masks: Vec<u64> = (0..n)
+            .map(|x| adj[x].iter().fold(0u64, |m, a| m | (1u64 << a.1)))
             .collect();
         let key = (masks.clone(), r);
         self.cache.entry(key).or_insert_with(|| {
             let mut pre = BTreeSet::new();
             let mut post = BTreeSet::new();
             let mut stack = vec![r];
-            let mut visited = 1u16 << r;
+            let mut visited = 1u64 << r;
             let mut pre_seq = vec![r as K];
             let mut post_seq = Vec::new();
+            let mut steps = 0u64;
+            #[allow(clippy::too_many_arguments)]
             fn rec(
-                masks: &[u16],
+                masks: &[u64],
                 stack: &mut Vec<usize>,
-                visited: &mut u16,
+                visited: &mut u64,
                 pre_seq: &mut Vec<K>,
                 post_seq: &mut Vec<K>,
                 pre: &mut BTreeSet<Vec<K>>,
                 post: &mut BTreeSet<Vec<K>>,
+                steps: &mut u64,
             ) {
+                *steps += 1;
+                if *steps > DFS_ENUM_CAP {
+                    return;
+                }
                 let top = match stack.last() {
                     Some(t) => *t,
                     None => {
@@ -273,25 +287,25 @@ impl DfsOrders {
                 if cand == 0 {
                     stack.pop();
                     post_seq.push(top as K);
-                    rec(masks, stack, visited, pre_seq, post_seq, pre, post);
+                    rec(masks, stack, visited, pre_seq, post_seq, pre, post, steps);
                     post_seq.pop();
                     stack.push(top);
                 } else {
                     for w in 0..masks.len() {
-                        if cand & (1 << w) != 0 {
-                            *visited |= 1 << w;
+                        if cand & (1u64 << w) != 0 {
+                            *visited |= 1u64 << w;
                             stack.push(w);
                             pre_seq.push(w as K);
-                            rec(masks, stack, visited, pre_seq, post_seq, pre, post);
+                            rec(masks, stack, visited, pre_seq, post_seq, pre, post, steps);
                             pre_seq.pop();
                             stack.pop();
-                            *visited &= !(1 << w);
+                            *visited &= !(1u64 << w);
                         }
                     }
                 }
             }
-            rec(&masks, &mut stack, &mut visited, &mut pre_seq, &mut post_seq, &mut pre, &mut post);
-            (pre, post)
+            rec(&masks, &mut stack, &mut visited, &mut pre_seq, &mut post_seq, &mut pre, &mut post, &mut steps);
+            (pre, post, steps <= DFS_ENUM_CAP)
         })
     }
 }
